@@ -55,6 +55,12 @@ class GFFGeneAnnotation:
         return self.gene_regions
 
 
+# attributes copied from the input annotation, without those IsoQuant writes itself for this record
+def copied_attributes(attribute_str, own_attributes):
+    kept = [a for a in attribute_str.split('; ') if a.strip() and a.strip().split(' ')[0] not in own_attributes]
+    return "".join(a + "; " for a in kept)
+
+
 class GFFPrinter:
     exon_id_dict = {}
 
@@ -148,7 +154,7 @@ class GFFPrinter:
             if gene_id not in self.printed_gene_ids:
                 gene_additiional_info = ""
                 if gene_info and gene_id in gene_info.feature_attributes:
-                    gene_additiional_info = gene_info.feature_attributes[gene_id]
+                    gene_additiional_info = copied_attributes(gene_info.feature_attributes[gene_id], ["transcripts"])
                 source = "IsoQuant"
                 if gene_info and gene_id in gene_info.sources:
                     source = gene_info.sources[gene_id]
@@ -166,7 +172,8 @@ class GFFPrinter:
                     model.add_additional_attribute("exons", str(len(model.exon_blocks)))
                 transcript_additiional_info = ""
                 if gene_info and model.transcript_id in gene_info.feature_attributes:
-                    transcript_additiional_info = " " + gene_info.feature_attributes[model.transcript_id]
+                    transcript_additiional_info = " " + copied_attributes(gene_info.feature_attributes[model.transcript_id],
+                                                                            model.additional_info)
 
                 transcript_line = '%s\t%s\ttranscript\t%d\t%d\t.\t%s\t.\tgene_id "%s"; transcript_id "%s"; %s\n' \
                                   % (model.chr_id,  model.source, model.exon_blocks[0][0], model.exon_blocks[-1][1],
